@@ -250,7 +250,11 @@ def dir_renamed(m_base, m_other):
         _dirs_with_content(leaves(m_other))
     gone = [d for d in sorted(db) if d not in do_]
     new = [d for d in sorted(do_) if d not in db]
-    return any(db[g] == do_[n] for g in gone for n in new)
+    # (the renamed directory may have been edited as well: at least half of
+    # its relative leaf paths are found again)
+    return any(db[g] == do_[n] or
+               2 * len(set(db[g]) & set(do_[n])) >= len(db[g])
+               for g in gone for n in new)
 
 
 def dir_copied(m_base, m_other):
